@@ -1,5 +1,5 @@
 """C17 (crash points) is assembled from the Conn part and, later, the Transport/Reader/Writer parts."""
-from engines import conn
+from engines import conn, writer
 
 PROPS = {"C17": "fault_enumeration"}
 
@@ -11,7 +11,13 @@ def run(ctx):
         keep.append("transport.go")
     ctx.vh_keep = keep
     cov = conn.run_part(ctx, "C17")
-    n = cov.get("cut_points", 0)
+    # Writer on the real Transport: the produce acknowledgement cut at every byte position (v2, v3, v7); the Writer goes on
+    # on a new connection, nothing is lost, duplicated beyond C01's retry rule, or reordered
+    w = writer.real_part(ctx, writer.PROP_INVS["C01"] + writer.PROP_INVS["C07"] + ["C08_NoStuckCall", "C09w_CloseReturns"], [], cuts=True)
+    w.pop("divergences_full", None)
+    cov["writer_continuation"] = w
+    cov["traces_validated_against_impl"] = (cov.get("traces_validated_against_impl") or 0) + w["traces_validated_against_impl"]
+    n = cov.get("cut_points", 0) + w["ack_cut_positions"] * 3
     cov.update({"evaluations": n, "distinct_nontrivial": n,
                 "rule": "one case per (response type, version, codec, cut position k): the fake broker delivers exactly k bytes of the response frame and closes; every k of every frame in thorough, every k of the first 100 bytes plus a seeded sample in quick; non-trivial = k < frame length",
                 "exhaustive": ctx.tier == "thorough"})
